@@ -34,6 +34,7 @@ def wellformed_dfa():
     t("L", "COMMENT", "PC", "para-comment")
     t("L", "NEWLINE", "S0", "blank-sep")
     t("I", "VALUE", "V", "value")
+    t("I", "NEWLINE", "L", "blank-cont")        # a continuation line holding only blanks (kept inside the value, invisible to value())
     t("PC", "NEWLINE", "L2", "para-comment-nl")
     # L2: after a comment line inside a paragraph: no continuation line may follow
     t("L2", "KEY", "K1", "key-next")
